@@ -663,6 +663,10 @@ CLASSES["CallbackSpecList"].ctor = speclist_ctor
 GLOBAL_NAMES["CallbackSpecList"] = Py(("class", "CallbackSpecList"))
 
 
+EV_ARR = z3.Function("EVENTS_GIVEN_ARR", Int, z3.ArraySort(Int, Int))  # the events an `event=` argument stands for, in order
+EV_N = z3.Function("EVENTS_GIVEN_N", Int, Int)
+
+
 def events_ctor(ex, path, ca, node):
     ev = path.alloc("Events", "events")
     path.store("Events._items", ev.e, ex.new_list(path, []).e)
@@ -675,11 +679,11 @@ def events_add_any(ex, path, recv, ca, node):
     duplicates; None adds nothing."""
     v = ca.pos[0]
     if not isinstance(v, NoneV):
+        # what is added is a function of the argument (a name, a space-separated string, an Event, a list of those)
         lst = path.sel("Events._items", recv.e)
-        path.store("list.arr", lst, fresh("ev_items", z3.ArraySort(Int, Int)))
-        n = fresh("ev_n", Int)
-        path.assume(n >= 0)
-        path.store("list.len", lst, n)
+        path.store("list.arr", lst, EV_ARR(ref_of(v)))
+        path.assume(EV_N(ref_of(v)) >= 0)
+        path.store("list.len", lst, z3.If(ref_of(v) == NONE, 0, EV_N(ref_of(v))))
     return [(path, recv)]
 
 
@@ -730,6 +734,10 @@ class TransitionInit(Contract):
                 z3.And(z3.Const("o!tis", Int) >= 0, z3.Const("o!tis", Int) < s0["ghost.alloc"]),
                 z3.Select(s["set.has"], z3.Const("o!tis", Int)) == z3.Select(s0["set.has"], z3.Const("o!tis", Int))),
                 patterns=[z3.Select(s["set.has"], z3.Const("o!tis", Int))]),
+            "C15|bound-to-exactly-the-events-given": z3.And(
+                s.sel("Transition._events", t) >= s0["ghost.alloc"], s.sel("Events._items", s.sel("Transition._events", t)) >= s0["ghost.alloc"],
+                s.sel("list.len", s.sel("Events._items", s.sel("Transition._events", t))) == z3.If(a.event.e == NONE, 0, EV_N(a.event.e)),
+                z3.Implies(a.event.e != NONE, s.sel("list.arr", s.sel("Events._items", s.sel("Transition._events", t))) == EV_ARR(a.event.e))),
             "C15|source-target-internal-stored": z3.And(s.sel("Transition.source", t) == a.source.e,
                                                         s.sel("Transition.target", t) == a.target.e, s.sel("Transition.internal", t) == a.internal.e),
             "C08,C15|guards-expect-True-for-cond-and-False-for-unless": z3.ForAll([k], z3.Implies(
